@@ -147,11 +147,16 @@ impl Check for C02 {
     }
 
     fn run(&self, run: &Run) {
-        let q = run.tier.quick();
+        let deep = !run.tier.quick();
+        let q = false;
         run.rule("scenes = surface x destination pattern x transform x clip/layer context x one drawing call (shape, blend mode, source kind, alpha, aa) followed by the pops; every transition is checked: pixels with zero reference coverage, outside a clip rectangle, with zero clip-path coverage, or in a buffer other than the destination must be bit-identical; non-trivial = the scene had partially covered pixels");
         run.assume("zero shape coverage is decided by an opaque-white reference fill of the same shape on a fresh target (under-approximated: only pixels whose reference alpha is exactly 0)");
-        let surfaces: Vec<(i32, i32)> = if q { vec![(4, 4)] } else { vec![(4, 4), (6, 5)] };
-        let xfs: Vec<Xf> = vec![IDENT, [1., 0., 0., 1., 0.5, 0.25], [2., 0., 0., 2., 0., 0.]];
+        let surfaces: Vec<(i32, i32)> = if deep { vec![(4, 4), (6, 5), (8, 7), (3, 9)] } else { vec![(4, 4), (6, 5)] };
+        let mut xfs: Vec<Xf> = vec![IDENT, [1., 0., 0., 1., 0.5, 0.25], [2., 0., 0., 2., 0., 0.]];
+        if deep {
+            xfs.push([0.8660254, 0.5, -0.5, 0.8660254, 1., -1.]);
+            xfs.push([1., 0., 0.5, 1., -1., 0.]);
+        }
         let srcs = sources(q);
         let alphas: &[f32] = if q { &[0.0, 0.5, 1.0] } else { &[0.0, 0.25, 0.5, 1.0] };
         for (w, h) in surfaces {
